@@ -21,7 +21,9 @@ var appArmorTypes = []corev1.AppArmorProfileType{"RuntimeDefault", "Localhost", 
 var selTypes = []string{"", "container_t", "container_init_t", "container_kvm_t", "container_engine_t", "spc_t", "container_t ", "Container_t", "container_x", "container_engine"}
 var sysctlNames = []string{"kernel.shm_rmid_forced", "net.ipv4.ip_local_port_range", "net.ipv4.tcp_syncookies", "net.ipv4.ping_group_range", "net.ipv4.ip_unprivileged_port_start",
 	"net.ipv4.ip_local_reserved_ports", "net.ipv4.tcp_keepalive_time", "net.ipv4.tcp_fin_timeout", "net.ipv4.tcp_keepalive_intvl", "net.ipv4.tcp_keepalive_probes",
-	"net.ipv4.tcp_rmem", "net.ipv4.tcp_wmem", "kernel.msgmax", "net.core.somaxconn", "", "net.ipv4.tcp_rmem ", "kernel.shm_rmid_force", "NET.IPV4.TCP_SYNCOOKIES", "net.ipv4.tcp_mem"}
+	"net.ipv4.tcp_rmem", "net.ipv4.tcp_wmem", "kernel.msgmax", "net.core.somaxconn", "", "net.ipv4.tcp_rmem ", "kernel.shm_rmid_force", "NET.IPV4.TCP_SYNCOOKIES", "net.ipv4.tcp_mem",
+	// other spellings of allowed names (the slash form is accepted by API validation): on no published list
+	"net/ipv4/tcp_syncookies", "kernel/shm_rmid_forced", "net/ipv4.ip_local_port_range", "net.ipv4/ping_group_range", "net.ipv4.tcp-syncookies", ".kernel.shm_rmid_forced", "kernel.shm_rmid_forced."}
 var annVals = []string{"runtime/default", "docker/default", "localhost/foo", "localhost/", "unconfined", "", "Runtime/default", "localhost", "runtime/default ", "docker/defaultx", "a\"b", "a\\b", "x\ty", "é"}
 var procMounts = []corev1.ProcMountType{"Default", "Unmasked", "", "default", "Default ", "Unmasked2"}
 var hostPortVals = []int32{0, 0, 0, 80, 8080, 9, 100, 65535, 1, -1}
